@@ -1,8 +1,9 @@
 """C13 — run() is idempotent and monotone re-runs equal a fresh run."""
 from . import core, eng, gen, engcheck
 
-THEOREMS = ["derivable_between", "derivable_union_restart", "rerun_idempotent", "monotone_rerun", "wfSt_pushRows", "run_lattice_from", "lattice_rerun_idempotent", "restart_agg", "rerun_idempotent_agg", "std_aggPermInvariant", "rerun_idempotent_phys", "monotone_rerun_phys", "restart_phys_agg", "rerun_idempotent_phys_agg", "negA_ctx", "negA_interrupted"]
-TRUSTED = ["Props/C13PhysAgg.lean (Proofs/NDAggRestart.lean, PhysAggTimeout*.lean): the re-run / run_timeout theorems for the PHYSICAL engine on stratified programs with aggregation / negation, relative to a completed reference run (restart_phys_agg, rerun_idempotent_phys_agg, timeout_false_sound_phys_agg, timeout_true_complete_phys_agg, resume_complete_phys_agg: any number of interruptions); tied by `eng runp` / `eng runtop` on aggregation programs",
+THEOREMS = ["derivable_between", "derivable_union_restart", "rerun_idempotent", "monotone_rerun", "wfSt_pushRows", "run_lattice_from", "lattice_rerun_idempotent", "restart_agg", "rerun_idempotent_agg", "std_aggPermInvariant", "rerun_idempotent_phys", "monotone_rerun_phys", "restart_phys_agg", "rerun_idempotent_phys_agg", "negA_ctx", "negA_interrupted", "runPhysLat_from", "rerun_idempotent_physLat"]
+TRUSTED = ["Props/C13PhysLat.lean (Model/EnginePhysLatTimeout.lean, Proofs/PhysLatFrom*.lean, PhysLatTimeout.lean): the physical engine WITH lattices from ANY legal program value (runPhysLat_from), idempotence of run() (rerun_idempotent_physLat, antisymmetric orders), run_timeout sound whatever it returns (timeout_sound_physLat) and completion of a resumed run (resume_complete_physLat); tied by `eng runtopl` / `eng runpl` on lattice programs",
+           "Props/C13PhysAgg.lean (Proofs/NDAggRestart.lean, PhysAggTimeout*.lean): the re-run / run_timeout theorems for the PHYSICAL engine on stratified programs with aggregation / negation, relative to a completed reference run (restart_phys_agg, rerun_idempotent_phys_agg, timeout_false_sound_phys_agg, timeout_true_complete_phys_agg, resume_complete_phys_agg: any number of interruptions); tied by `eng runp` / `eng runtop` on aggregation programs",
            "Lean 4.33.0 kernel", "axioms: propext, Classical.choice, Quot.sound only (audited per theorem)",
            "statement: Props/C13.lean (histories run;run and run;push;run from any well-formed program value, aggregation-free serial programs)",
            "model Model/Engine.lean (index contents persist between runs; update_indices rebuilds them from the rows, fix 8b2e261) tied by compiled programs driven "
@@ -172,7 +173,7 @@ def canon(c, out):
 
 
 def check(tier, replay=None):
-    return engcheck.run_property("C13", tier, modules=["AscentVerif.Props.C13", "AscentVerif.Props.C13L", "AscentVerif.Props.C13Agg", "AscentVerif.Props.C13Phys", "AscentVerif.Props.C13PhysAgg"], theorems=THEOREMS, trusted=TRUSTED, group="c13",
+    return engcheck.run_property("C13", tier, modules=["AscentVerif.Props.C13", "AscentVerif.Props.C13L", "AscentVerif.Props.C13Agg", "AscentVerif.Props.C13Phys", "AscentVerif.Props.C13PhysAgg", "AscentVerif.Props.C13PhysLat"], theorems=THEOREMS, trusted=TRUSTED, group="c13",
                                  build=build, oracle=oracle, known=known, canon=canon, what="histories of run / push on compiled programs",
                                  rule="generated aggregation-free programs x histories run; (run | push facts into any relations incl. derived ones; run){1..3}; "
                                       "after an unmodified re-run every relation must be unchanged as a set, after pushes it must equal the naive least model "
